@@ -122,6 +122,35 @@ def observed_class(o):
     return "CallError"
 
 
+TIMEOUT_WORDS = ("deadline exceeded", "err:timeout", "i/o timeout", "timed out", "hang", "Client.Timeout")
+
+
+def is_timeout(x):
+    return any(w in (x or "") for w in TIMEOUT_WORDS)
+
+
+def timing_only(o):
+    """The only thing wrong with this observation is that calls ran into a deadline: the process is alive, the scenario
+    finished (or the whole child had to be killed for taking too long), and every sentinel that is not ok failed with
+    a timeout and nothing else.  Under machine load that says nothing about the library; such a case is re-run alone
+    with longer deadlines.  A dead process, a refused connection, a closed connection or a wrong result never qualify."""
+    if o is None:
+        return False
+    if o.get("killed"):
+        return True
+    ch = o.get("child")
+    if ch is None or o.get("died"):
+        return False
+    if not ch.get("done"):
+        return any("watchdog" in n for n in ch.get("notes") or [])
+    bad = [ch.get(k, "n/a") for k in ("inflight_same", "inflight_other", "after_same", "after_other", "after_fresh", "during")]
+    bad = [x for x in bad if x not in ("ok", "n/a")]
+    if is_timeout(ch.get("fault")):
+        bad.append(ch["fault"])
+    bad += [v for v in (ch.get("before") or {}).values() if v != "ok"]
+    return bool(bad) and all(is_timeout(x) for x in bad)
+
+
 def same_conn_observable(case):
     """Is there a shared connection on which a call is in flight, so that ConnClosed and
     CallError can be told apart from outside?"""
@@ -256,7 +285,12 @@ def run(ctx):
     ctx.note("cells", len(names))
     run_corpus(ctx)
     cases = gen_cases(ctx, names)
-    byid, err = run_cases(cases)
+    if os.environ.get("C11_SELFTEST_TIMING"):
+        # driver self-test: give a few cases deadlines nobody can meet in the first pass; they must be retried and pass
+        first = [dict(c, slow=-1) if c["id"] % 97 == 1 else c for c in cases]
+        byid, err = run_cases(first)
+    else:
+        byid, err = run_cases(cases)
     # anything lost to a crashed executor (not child) is re-run once, serially
     missing = [c for c in cases if c["id"] not in byid]
     if missing:
@@ -290,6 +324,26 @@ def run(ctx):
                 ctx.bump("inconclusive", "environment")
                 continue
         why = property_oracle(c, o)
+        if (why is not None or not agrees(c, m["verdict"], seen, o, m)) and timing_only(o):
+            # nothing but deadlines: re-run the case alone, with longer deadlines, up to three times; it counts only if it
+            # reproduces every time (a genuine failure seen in a re-run is taken at once)
+            ctx.bump("inconclusive_timing_retries")
+            for attempt in (1, 2, 3):
+                c2 = dict(c)
+                c2["slow"] = 2 * attempt
+                again, _ = run_cases([c2], nproc=1)
+                o2 = again.get(c["id"])
+                if o2 is None:
+                    continue
+                o, seen, why = o2, observed_class(o2), property_oracle(c, o2)
+                byid[c["id"]] = o
+                ctx.bump("timing_retry_attempts")
+                if not timing_only(o) or (why is None and agrees(c, m["verdict"], seen, o, m)):
+                    break
+            if seen == "Env":
+                inconclusive += 1
+                ctx.bump("inconclusive", "environment")
+                continue
         # a decode-panic trigger that no longer panics says nothing about containment
         if c["fault"] == "decode-panic" and c["variant"] != "codec-panic" and seen == "CallError" and why is None \
                 and not agrees(c, m["verdict"], seen, o, m) and "runtime error" not in (o["child"]["fault"] or ""):
@@ -317,6 +371,7 @@ def run(ctx):
                 ctx.sample({"cell": c["cell"], "variant": c["variant"], "model": m["verdict"], "recovering_frame": m["frame"],
                             "observed": seen, "panic": o.get("panic_line"), "origin": o.get("origin"),
                             "fault_call": (o.get("child") or {}).get("fault")})
+    ctx.cov.setdefault("inconclusive_timing_retries", 0)
     ctx.note("traces_validated_against_impl", validated)
     ctx.note("inconclusive_cases", inconclusive)
     ctx.note("disagreements", len(disagreements))
@@ -375,6 +430,19 @@ def run_corpus(ctx):
             again, _ = run_cases([c], nproc=1)
             o = again.get(c["id"], o)
             why = property_oracle(c, o)
+        if why is not None and timing_only(o):
+            ctx.bump("inconclusive_timing_retries")
+            for attempt in (1, 2, 3):
+                c2 = dict(c)
+                c2["slow"] = 2 * attempt
+                again, _ = run_cases([c2], nproc=1)
+                if c["id"] not in again:
+                    continue
+                o = again[c["id"]]
+                why = property_oracle(c, o)
+                ctx.bump("timing_retry_attempts")
+                if why is None or not timing_only(o):
+                    break
         if why is None:
             passed += 1
         else:
